@@ -75,6 +75,73 @@ _SEARCH_LOOP = (
     "                return region\n"
 )
 
+_B1_FIXED = (
+    "                        try:\n"
+    "                            swallowed = self._handle_eq_event(cap_data.session(), region, event)\n"
+    "                        except Exception:\n"
+    "                            # An event we can't make sense of must not take the rest of the\n"
+    "                            # response down with it, the viewer gets that one event as-is.\n"
+    "                            LOG.exception(\"Failed to handle EQ event, passing it through untouched\")\n"
+    "                            swallowed = False\n"
+    "                        if not swallowed:\n"
+    "                            new_events.append(event)\n"
+)
+_B2_FIXED = (
+    "                    # Serialize before remembering the response, something we can't\n"
+    "                    # even write out must never end up in the replay cache.\n"
+    "                    flow.response.content = llsd.format_xml(parsed_eq_resp)\n"
+    "                    eq_manager.cache_last_poll_response(req_ack_id, parsed_eq_resp)\n"
+    "                else:\n"
+    "                    flow.response.content = llsd.format_xml(parsed_eq_resp)\n"
+)
+_EQ_BRANCH_FX = (
+    "                parsed_eq_resp = llsd.parse_xml(flow.response.content)\n"
+    "                if parsed_eq_resp:\n"
+    "                    old_events = parsed_eq_resp[\"events\"]\n"
+    "                    new_events = []\n"
+    "                    for event in old_events:\n"
+    + _B1_FIXED +
+    "                    # Add on any fake events that've been queued by addons\n"
+    "                    eq_manager = cap_data.region().eq_manager\n"
+    + _MERGE +
+    "                    parsed_eq_resp[\"events\"] = new_events\n"
+    + _UNDEF +
+    "                    # HACK: see note in above request handler for EventQueueGet\n"
+    "                    req_ack_id = llsd.parse_xml(flow.request.content)[\"ack\"]\n"
+    + _B2_FIXED
+)
+_EQ_HELPER_FX = (
+    "    def _rewrite_eq_response(self, the_flow, caps, the_region):\n"
+    "        body = llsd.parse_xml(the_flow.response.content)\n"
+    "        if body:\n"
+    "            from_sim = body[\"events\"]\n"
+    "            outgoing = []\n"
+    "            for ev in from_sim:\n"
+    "                try:\n"
+    "                    gone = self._handle_eq_event(caps.session(), the_region, ev)\n"
+    "                except Exception:\n"
+    "                    LOG.exception(\"EQ event not handled\")\n"
+    "                    gone = False\n"
+    "                if not gone:\n"
+    "                    outgoing.append(ev)\n"
+    "            manager = caps.region().eq_manager\n"
+    "            outgoing.extend(manager.take_injected_events())\n"
+    "            body[\"events\"] = outgoing\n"
+    "            if from_sim and not outgoing:\n"
+    "                body = None\n"
+    "            ack = llsd.parse_xml(the_flow.request.content)[\"ack\"]\n"
+    "            the_flow.response.content = llsd.format_xml(body)\n"
+    "            manager.cache_last_poll_response(ack, body)\n"
+    "        else:\n"
+    "            the_flow.response.content = llsd.format_xml(body)\n"
+    "\n"
+)
+_B3_TAIL = (
+    "        handle_event = AddonManager.handle_eq_event(session, region, event)\n"
+    "        # True: addon handled the event and didn't want it sent to the viewer\n"
+    "        return handle_event is True\n"
+)
+
 VARIANTS = [
     # ---- R1 filter loop
     {"name": "R1 kept events inserted at the head", "file": HEM, "expect": "C17.R1",
@@ -326,6 +393,92 @@ VARIANTS = [
             "    except Exception as e:\n        raise ValueError(f\"bad LLSD+XML: {e}\") from e\n"},
     {"name": "P R2 take_injected_events as a tuple swap", "file": REG, "expect": "silent",
      "old": _TAKE, "new": "        events, self._queued_events = self._queued_events, []\n"},
+    # ---- audit round: reverts of the fixes (inapplicable until the fix is committed) and their twins
+    {"name": "R1 per-event try removed (fix reverted)", "file": HEM, "expect": "C17.R1",
+     "old": _B1_FIXED,
+     "new": "                        if not self._handle_eq_event(cap_data.session(), region, event):\n"
+            "                            new_events.append(event)\n"},
+    {"name": "P R1 per-event try with other names", "file": HEM, "expect": "silent",
+     "old": _B1_FIXED,
+     "new": "                        try:\n"
+            "                            verdict = self._handle_eq_event(cap_data.session(), region, event)\n"
+            "                        except Exception as exc:\n"
+            "                            LOG.exception(\"EQ event %r not handled: %s\", event.get(\"message\"), exc)\n"
+            "                            verdict = False\n"
+            "                        if verdict:\n"
+            "                            continue\n"
+            "                        new_events.append(event)\n"},
+    {"name": "R2 inject_event no longer validates the event (fix reverted)", "file": REG, "expect": "C17.R2",
+     "old": "        llsd.format_xml(event)\n        self._queued_events.append(event)\n",
+     "new": "        self._queued_events.append(event)\n"},
+    {"name": "P R2 inject_event keeps the serialised form in a local", "file": REG, "expect": "silent",
+     "old": "        llsd.format_xml(event)\n        self._queued_events.append(event)\n",
+     "new": "        probe = llsd.format_xml(event)\n        del probe\n        self._queued_events.append(event)\n"},
+    {"name": "R3 response cached before it is serialised (fix reverted)", "file": HEM, "expect": "C17.R3",
+     "old": _B2_FIXED,
+     "new": "                    eq_manager.cache_last_poll_response(req_ack_id, parsed_eq_resp)\n"
+            "                flow.response.content = llsd.format_xml(parsed_eq_resp)\n"},
+    {"name": "P R3 serialised body held in a local until it is cached", "file": HEM, "expect": "silent",
+     "old": _B2_FIXED,
+     "new": "                    body = llsd.format_xml(parsed_eq_resp)\n"
+            "                    eq_manager.cache_last_poll_response(req_ack_id, parsed_eq_resp)\n"
+            "                    flow.response.content = body\n"
+            "                else:\n"
+            "                    flow.response.content = llsd.format_xml(parsed_eq_resp)\n"},
+    {"name": "R4 addons asked before the region registration (fix reverted)", "expect": "C17.R4",
+     "edits": [
+         {"file": HEM, "old": "        sim_addr, sim_handle, sim_seed = None, None, None\n",
+          "new": "        if AddonManager.handle_eq_event(session, region, event) is True:\n            return True\n"
+                 "        sim_addr, sim_handle, sim_seed = None, None, None\n"},
+         {"file": HEM, "old": _B3_TAIL, "new": "        return False\n"},
+     ]},
+    {"name": "P R4 verdict returned through an if after the registration", "file": HEM, "expect": "silent",
+     "old": _B3_TAIL,
+     "new": "        handle_event = AddonManager.handle_eq_event(session, region, event)\n"
+            "        if handle_event is True:\n            return True\n        return False\n"},
+    # ---- the round-1..8 variants whose anchor text the audit fixes change, re-anchored on the fixed text
+    {"name": "R1 extra filter condition drops events (post-fix)", "file": HEM, "expect": "C17.R1",
+     "old": "                        if not swallowed:\n",
+     "new": "                        if not swallowed and event[\"message\"] != \"PlacesReply\":\n"},
+    {"name": "R1 filter polarity flipped (post-fix)", "file": HEM, "expect": "C17.R1",
+     "old": "                        if not swallowed:\n", "new": "                        if swallowed:\n"},
+    {"name": "R1 _handle_eq_event reports every event swallowed (post-fix)", "file": HEM, "expect": "C17.R1",
+     "old": "        return handle_event is True\n", "new": "        return True\n"},
+    {"name": "R1 any truthy hook result swallows (post-fix)", "file": HEM, "expect": "C17.R1",
+     "old": "        return handle_event is True\n", "new": "        return bool(handle_event)\n"},
+    {"name": "R1 filter as a comprehension loses the per-event isolation (post-fix)", "file": HEM, "expect": "C17.R1",
+     "old": "                    new_events = []\n                    for event in old_events:\n" + _B1_FIXED,
+     "new": "                    new_events = [event for event in old_events\n"
+            "                                  if not self._handle_eq_event(cap_data.session(), region, event)]\n"},
+    {"name": "P R2 queue drained before the (now fault-isolated) filter loop (post-fix)", "expect": "silent",
+     "edits": [
+         {"file": HEM, "old": "                    new_events = []\n                    for event in old_events:\n" + _B1_FIXED,
+          "new": "                    pending = cap_data.region().eq_manager.take_injected_events()\n"
+                 "                    new_events = []\n                    for event in old_events:\n" + _B1_FIXED},
+         {"file": HEM, "old": _MERGE, "new": "                    new_events.extend(pending)\n"},
+     ]},
+    {"name": "R3 undef replacement after the response was serialised and cached (post-fix)", "file": HEM, "expect": "C17.R3",
+     "old": _UNDEF + "                    # HACK: see note in above request handler for EventQueueGet\n"
+            "                    req_ack_id = llsd.parse_xml(flow.request.content)[\"ack\"]\n" + _B2_FIXED,
+     "new": "                    # HACK: see note in above request handler for EventQueueGet\n"
+            "                    req_ack_id = llsd.parse_xml(flow.request.content)[\"ack\"]\n"
+            "                    flow.response.content = llsd.format_xml(parsed_eq_resp)\n"
+            "                    eq_manager.cache_last_poll_response(req_ack_id, parsed_eq_resp)\n"
+            + _UNDEF +
+            "                else:\n                    flow.response.content = llsd.format_xml(parsed_eq_resp)\n"},
+    {"name": "R4 register_region called for every event (post-fix)", "file": HEM, "expect": "C17.R4",
+     "old": "        if sim_addr is not None:\n            session.register_region(",
+     "new": "        if sim_addr is not None or sim_seed is None:\n            session.register_region("},
+    {"name": "P R4 registration guard with the empty branch first (post-fix)", "file": HEM, "expect": "silent",
+     "old": "        if sim_addr is not None:\n            session.register_region(sim_addr, handle=sim_handle, seed_url=sim_seed)\n",
+     "new": "        if sim_addr is None:\n            pass\n        else:\n"
+            "            session.register_region(sim_addr, handle=sim_handle, seed_url=sim_seed)\n"},
+    {"name": "P R1-R3 EventQueueGet branch extracted into a helper with other local names (post-fix)", "expect": "silent",
+     "edits": [
+         {"file": HEM, "old": _EQ_BRANCH_FX, "new": "                self._rewrite_eq_response(flow, cap_data, region)\n"},
+         {"file": HEM, "old": "    def _handle_login_flow(self, flow: HippoHTTPFlow):\n",
+          "new": _EQ_HELPER_FX + "    def _handle_login_flow(self, flow: HippoHTTPFlow):\n"},
+     ]},
     # ---- documented limit
     {"name": "X swallow on any truthy hook result instead of `is True` (value level)", "file": HEM, "expect": "miss",
      "old": "        if handle_event is True:\n", "new": "        if handle_event:\n"},
